@@ -2,7 +2,7 @@
     files.  Props/C19.v closes each theorem with one of these. *)
 From Coq Require Import List NArith ZArith Bool Arith Lia Permutation.
 From Verif Require Import Dag.Model Dag.Facts Dag.KahnProofs Dag.CircleProofs Dag.CheckProofs
-     Dag.ClosureProofs Dag.PushProofs Dag.MapProofs Dag.LayoutProofs Dag.ReverseProofs.
+     Dag.ClosureProofs Dag.PushProofs Dag.MapProofs Dag.LayoutProofs Dag.ReverseProofs Dag.TopoProofs.
 Import ListNotations.
 
 (** Go's map iteration order: any function returning a permutation. *)
@@ -155,4 +155,15 @@ Proof.
   rewrite E1 in S1. rewrite E2 in S2.
   destruct S1 as [_ [_ [L1 _]]], S2 as [_ [_ [L2 _]]].
   eapply layered_unique; eauto.
+Qed.
+
+(** TopoSort / SortedNodes *)
+Lemma s_topo : forall P, layer_first (p_by_layer P) = true ->
+  forall sh, perm_oracle sh -> forall g, wf g ->
+  forall m, new_map sh g = MOk m ->
+  Permutation (sorted_nodes P m (m_lay0 m)) (keys g) /\
+  forall l1 v l2 u, sorted_nodes P m (m_lay0 m) = l1 ++ v :: l2 -> edge g u v -> In u l1.
+Proof.
+  intros P LF sh O g W m E. pose proof (new_map_spec sh O g W) as S. rewrite E in S.
+  destruct S as [Eg A]. rewrite <- Eg. apply (sorted_nodes_topological P LF m A).
 Qed.
